@@ -5,6 +5,8 @@ import (
 	"fmt"
 	"log/slog"
 	"os"
+	"reflect"
+	"slices"
 	"strings"
 	"sync"
 	"time"
@@ -404,6 +406,21 @@ func (q *TaskQueue) remove(id string) task.Task {
 	return t
 }
 
+// indexOfTask returns the position of the very task t in the queue, not of
+// another task that carries the same id. It returns -1 when t is not queued or
+// when tasks of its type cannot be compared.
+func (q *TaskQueue) indexOfTask(t task.Task) int {
+	if t == nil || !reflect.TypeOf(t).Comparable() {
+		return -1
+	}
+	for i, item := range q.items {
+		if item == t {
+			return i
+		}
+	}
+	return -1
+}
+
 func (q *TaskQueue) SetDebug(debug bool) {
 	q.debug = debug
 }
@@ -475,12 +492,24 @@ func (q *TaskQueue) Start() {
 			case Success, Keep:
 				// Insert new tasks right after the current task in reverse order.
 				q.withLock(func() {
+					// The result concerns the handled task itself. Find it by identity:
+					// a task with the same id may have been put in front of it while
+					// the handler was running, and it is not the one to be removed.
+					pos := q.indexOfTask(t)
 					for i := len(taskRes.AfterTasks) - 1; i >= 0; i-- {
-						q.addAfter(t.GetId(), taskRes.AfterTasks[i])
+						if pos >= 0 {
+							q.items = slices.Insert(q.items, pos+1, taskRes.AfterTasks[i])
+						} else {
+							q.addAfter(t.GetId(), taskRes.AfterTasks[i])
+						}
 					}
 					// Remove current task on success.
 					if taskRes.Status == Success {
-						q.remove(t.GetId())
+						if pos >= 0 {
+							q.items = slices.Delete(q.items, pos, pos+1)
+						} else {
+							q.remove(t.GetId())
+						}
 					}
 					// Also, add HeadTasks in reverse order
 					// at the start of the queue. The first task in HeadTasks
